@@ -262,7 +262,8 @@ class DerivedLevel(Level):
                                 [replacements.get(f, [f, f])[0] for f in self.window.factors],
                                 self.window.width,
                                 self.window.stride,
-                                self.window.start))
+                                self.window.start),
+                         self.weight)
         replacements[self] = l
 
 
